@@ -228,6 +228,7 @@ class Run:
             g = np.random.default_rng(9 + len(self.inputs))
             U_ = 0.02 * g.normal(size=(2, len(ph.supercell), 3))
             ph.displacements = self.give("displacements", U_)
+            _ = ph.supercells_with_displacements  # the workflow reads the displaced cells (builds a cache)
         elif op == "genT":
             # finite-temperature random displacements from the CURRENT phonons (fixed seed: a fresh object gives the same ones)
             phx.quiet(ph.generate_displacements, number_of_snapshots=2, temperature=300.0, random_seed=7, cutoff_frequency=0.01)
